@@ -180,6 +180,7 @@ func main() {
 	for _, n := range names {
 		sites = append(sites, scan(fset, n, funcs[n].decl.Body)...)
 		sites = append(sites, nilResults(fset, n, funcs[n].decl)...)
+		sites = append(sites, mapFills(fset, n, funcs[n].decl.Body)...)
 	}
 	sort.Slice(sites, func(i, j int) bool {
 		a, b := sites[i], sites[j]
@@ -617,4 +618,88 @@ func nilResults(fset *token.FileSet, fn string, fd *ast.FuncDecl) []site {
 		return true
 	})
 	return res
+}
+
+// "mapfill": a store `m[k] = v` inside a loop, with the conditions under which it is reached (enclosing if
+// conditions inside the loop, and the negated conditions of earlier `if c { continue / break / return }` of the same
+// loop body).  A map filled from persisted state and later dereferenced without a nil check (VoteResult.rmap in
+// SubVote) must contain every key the state refers to: a new skip condition in front of the store changes the site.
+func mapFills(fset *token.FileSet, fn string, body *ast.BlockStmt) []site {
+	var res []site
+	exits := func(b *ast.BlockStmt) bool {
+		for _, s := range b.List {
+			switch x := s.(type) {
+			case *ast.BranchStmt:
+				if x.Tok == token.CONTINUE || x.Tok == token.BREAK || x.Tok == token.GOTO {
+					return true
+				}
+			case *ast.ReturnStmt:
+				return true
+			}
+		}
+		return false
+	}
+	var walk func(l []ast.Stmt, guards []string, inLoop bool)
+	var one func(s ast.Stmt, guards []string, inLoop bool)
+	walk = func(l []ast.Stmt, guards []string, inLoop bool) {
+		g := append([]string{}, guards...)
+		for _, s := range l {
+			one(s, g, inLoop)
+			if is, ok := s.(*ast.IfStmt); ok && inLoop && is.Else == nil && exits(is.Body) {
+				g = append(g, "not ("+text(fset, is.Cond)+")")
+			}
+		}
+	}
+	one = func(s ast.Stmt, guards []string, inLoop bool) {
+		switch x := s.(type) {
+		case *ast.BlockStmt:
+			walk(x.List, guards, inLoop)
+		case *ast.IfStmt:
+			c := text(fset, x.Cond)
+			walk(x.Body.List, append(append([]string{}, guards...), c), inLoop)
+			if x.Else != nil {
+				one(x.Else, append(append([]string{}, guards...), "not ("+c+")"), inLoop)
+			}
+		case *ast.ForStmt:
+			walk(x.Body.List, nil, true)
+		case *ast.RangeStmt:
+			walk(x.Body.List, nil, true)
+		case *ast.SwitchStmt:
+			for _, c := range x.Body.List {
+				cc := c.(*ast.CaseClause)
+				walk(cc.Body, append(append([]string{}, guards...), "case "+text(fset, cc)[:0]+exprList(fset, cc.List)), inLoop)
+			}
+		case *ast.TypeSwitchStmt:
+			for _, c := range x.Body.List {
+				walk(c.(*ast.CaseClause).Body, guards, inLoop)
+			}
+		case *ast.LabeledStmt:
+			one(x.Stmt, guards, inLoop)
+		case *ast.AssignStmt:
+			if inLoop {
+				for _, l := range x.Lhs {
+					if ie, ok := l.(*ast.IndexExpr); ok {
+						when := "always"
+						if len(guards) > 0 {
+							when = strings.Join(guards, " && ")
+						}
+						res = append(res, site{fn, "mapfill", text(fset, ie) + " when " + when})
+					}
+				}
+			}
+		}
+	}
+	walk(body.List, nil, false)
+	return res
+}
+
+func exprList(fset *token.FileSet, l []ast.Expr) string {
+	var ps []string
+	for _, e := range l {
+		ps = append(ps, text(fset, e))
+	}
+	if len(ps) == 0 {
+		return "default"
+	}
+	return strings.Join(ps, ", ")
 }
